@@ -47,7 +47,7 @@ def check(ctx: Ctx) -> str:
     ctx.check("self._depth + 1 >= len(self._stack)" in s and "BlockReference(self.name, self._context, self._stack, self._depth + 1)" in s, "BlockReference.super", "runtime:BlockReference.super", "super.super chain", "BlockReference.super must move one step down the same stack and become undefined past its end", bs.loc())
     for meth in ("__call__", "_async_call"):
         fi = repo.func(f"runtime:BlockReference.{meth}")
-        ctx.check("self._stack[self._depth](self._context)" in ast.unparse(fi.node), f"BlockReference.{meth}", f"runtime:BlockReference.{meth}", "renders its own depth", f"BlockReference.{meth} must render self._stack[self._depth] with the reference's context", fi.loc())
+        ctx.check("self._stack[self._depth](self._context)" in fi.ntext, f"BlockReference.{meth}", f"runtime:BlockReference.{meth}", "renders its own depth", f"BlockReference.{meth} must render self._stack[self._depth] with the reference's context", fi.loc())
     tr = repo.func("runtime:TemplateReference.__getitem__")
     s = ast.unparse(tr.node)
     ctx.check("BlockReference(name, self.__context, blocks, 0)" in s.replace("_TemplateReference__context", "__context"), "self.block:head", "runtime:TemplateReference.__getitem__", "self.<block>() renders the head", "self.<block>() must reference depth 0 (the most-derived block)", tr.loc())
